@@ -58,6 +58,13 @@ CHECKS = {
         "linform_vector with a real cache directory, really damaged files and real pools (cpu_count 1..16); each returned array is compared bitwise with entry-by-entry "
         "evaluation and the recorded history is judged by TLC.",
    note="OS scheduling of workers not controlled (model covers interleavings; implementation run over worker counts/chunkings). Crash realised as damage-after-store + discarded result. Trusted: TLC, NumPy's .npy reader for the file projection."),
+ "C01": dict(level="exploration", design="§5 C01", engine="panels",
+   technique="TLC enumeration and model checking of Panels.tla (panel recursion) + class-stratified replay into bilform against an independent reference integrator, judged by TLC (TracePanels) with class coverage",
+   text="Panels.tla is checked for every ordered pair of dyadic elements per curve shape (recursion terminates, no assertion reachable, terminal panels tile, every singular point "
+        "lies where the chosen rule is graded, closed-form dispatcher exhaustive and tiling). Pairs are stratified by (space relation, Allen relation); members of every class are "
+        "concretised by real bisection, evaluated on both paths and compared with the reference in the property's metric; TLC recomputes the class, judges the deviation, compares "
+        "the recorded panel decomposition with the model's (diagnostic) and demands every class was exercised.",
+   note="Exploration: per-class samples, aspect <= 32, dyadic levels as listed in the evidence. Trusted: reference integrator (self-checked against published constants and a second grading), scipy.special.exp1."),
 }
 
 NOT_YET = {}
@@ -96,6 +103,8 @@ def main():
         "engines": [
             {"name": "stmesh", "path": "/verif/spec/STMesh.tla", "serves_properties": ["C02", "C10", "C06", "C19", "C18"],
              "kind_free_text": "TLA+ specification of the space-time mesh; TLC exhaustive + trace judge (spec/trace/TraceSTMesh.tla)"},
+            {"name": "panels", "path": "/verif/spec/Panels.tla", "serves_properties": ["C01", "C04", "C11", "C12", "C13", "C07"],
+             "kind_free_text": "TLA+ skeleton of the single-layer operator (causality, panel recursion, classes); judge spec/trace/TracePanels.tla; oracle harness/oracles/heat_ref.py"},
             {"name": "assembly", "path": "/verif/spec/Assembly.tla", "serves_properties": ["C17"],
              "kind_free_text": "TLA+ model of the assembly paths / pool / cache; behaviours replayed on real files and pools; judge spec/trace/TraceAssembly.tla"},
             {"name": "paraminit", "path": "/verif/spec/ParamInit.tla", "serves_properties": ["C18"],
